@@ -5,9 +5,10 @@ import (
 	"time"
 )
 
-// time.Parse / (time.Time).Format for CONCRETE arguments and UTC results only
-// (calendar arithmetic is not encoded; a symbolic argument or a non-UTC zone
-// ends the path as inconclusive). Used for the RRVS parameter on a concrete
+// time.Parse / (time.Time).Format for CONCRETE arguments (calendar arithmetic is
+// not encoded; a symbolic argument ends the path as inconclusive). Values live
+// in UTC: a time parsed with a numeric zone offset keeps its instant and loses
+// its zone; a time value with any other location is inconclusive. Used for the RRVS parameter on a concrete
 // corpus of timestamps.
 
 const unixToInternal = 62135596800
@@ -50,9 +51,8 @@ func init() {
 		if err != nil {
 			return tuple{zero(tp.Type("Time").Type()), ex.newError(fr, err.Error(), iface{})}
 		}
-		if _, off := t.Zone(); off != 0 {
-			ex.inconclusive("time.Parse result in a non-UTC zone")
-		}
+		// (a numeric zone offset is normalised to UTC: the INSTANT is exact,
+		// the zone of the value is not kept - harnesses compare instants)
 		return tuple{ex.timeStruct(t.UTC()), iface{}}
 	})
 	reg("(time.Time).Format", func(ex *Exec, fr *frame, a []value) value {
